@@ -20,7 +20,7 @@ RULE = (
 )
 ASSUMPTIONS = ["snapshots compare object identities, not reprs", "graphviz 'dot' is available for render cases (else they are skipped and counted)"]
 
-OPS = ["run_ok", "run_fail", "run_stalefail", "run_cycle", "dry", "render", "render_dry", "concurrent", "concurrent_reg", "copies", "run_opts", "foreign_entry", "run_dry_plan"]
+OPS = ["run_ok", "run_fail", "run_stalefail", "run_cycle", "dry", "render", "render_dry", "concurrent", "concurrent_reg", "copies", "run_opts", "foreign_entry", "run_dry_plan", "stub_source"]
 
 
 def gen_cases(tier, seed):
@@ -43,7 +43,7 @@ def run_case(desc):
     bad = None
     registry = None
     S = None
-    use_reg = op in ("run_stalefail", "dry", "render_dry", "concurrent_reg", "foreign_entry") or (op in ("run_ok", "run_fail", "render", "copies", "run_cycle", "run_opts", "run_dry_plan") and rng.random() < 0.5)
+    use_reg = op in ("run_stalefail", "dry", "render_dry", "concurrent_reg", "foreign_entry", "stub_source") or (op in ("run_ok", "run_fail", "render", "copies", "run_cycle", "run_opts", "run_dry_plan") and rng.random() < 0.5)
     if use_reg:
         rp = regmodel.gen_regplan(rng, desc["n"])
         S = regmodel.Session(rp, desc["seed"])
@@ -157,6 +157,33 @@ def run_case(desc):
                 bad = compare(f"run(dry_run={dry}) with a registry that also holds a node of another plan")
                 if bad:
                     break
+        elif op == "stub_source":
+            # a second registry that stubs the sources of the first: the placeholder nodes created by registry.source are registered there
+            # with Registry.add (is_source False). Runs with the second registry must leave ITS entries as they are.
+            from vmon import vstore
+
+            reg2 = uberjob.Registry()
+            for node_, rv in registry.mapping.items():
+                st2 = vstore.VStore("stub" + str(len(reg2)), S.clock, H)
+                if rv.is_source:
+                    st2.set_content(irmod.Val(("stub", len(reg2)), 0))
+                reg2.add(node_, st2)
+            snap2 = snapshot.registry_snapshot(reg2)
+            for dry in (True, False):
+                exc = None
+                try:
+                    uberjob.run(plan, output=output, registry=reg2, dry_run=dry, max_workers=desc["W"], scheduler=desc["sched"], progress=None)
+                except BaseException as e:
+                    exc = e
+                detail[f"raised_dry={dry}"] = repr(exc)[:80]
+                counters["snapshots_compared"] += 1
+                d = snapshot.diff(snap2, snapshot.registry_snapshot(reg2))
+                if d:
+                    flags = [(a[3], b[3]) for a, b in zip(snap2, snapshot.registry_snapshot(reg2)) if a != b][:3]
+                    bad = f"run(dry_run={dry}) with a registry that stubs source nodes via Registry.add modified that registry: {d} (is_source before/after: {flags})"
+                    break
+            if bad is None:
+                bad = compare("runs with a stubbing second registry")
         elif op == "run_dry_plan":
             # the physical plan returned by a dry run is a Plan like any other: running it must not modify it either
             pp, out_node = uberjob.run(plan, **kw, dry_run=True)
